@@ -20,6 +20,7 @@ Server output is read through an independent strict RFC 5804 response reader
 
 from __future__ import annotations
 
+import asyncio
 import base64
 import hashlib
 import logging
@@ -205,12 +206,35 @@ def final_of(toks: list[tuple[str, bytes]]) -> Resp | None:
     return Resp(toks[0][1].upper(), code, text, [])
 
 
+class BusyLoop(BaseException):
+    """Raised *inside the server task* when it keeps reading an exhausted
+    stream: without it the task would spin forever without ever yielding to
+    the event loop (a deterministic recording point instead of a wall-clock
+    watchdog)."""
+
+
+class GuardReader(asyncio.StreamReader):
+    SPIN = 500
+
+    def __init__(self, **kw: Any) -> None:
+        super().__init__(**kw)
+        self.eof_reads = 0
+
+    async def readline(self) -> bytes:
+        if self.at_eof():
+            self.eof_reads += 1
+            if self.eof_reads > self.SPIN:
+                raise BusyLoop('%d reads at EOF' % self.eof_reads)
+        return await super().readline()
+
+
 class SieveConn(Conn):
     """``vf.net.Conn`` transport; the IMAP framer is bypassed and the bytes
     the server wrote (``self.out``) are read with ``parse_line``."""
 
     def __init__(self, cid: int, log: list[tuple[str, int, bytes]]) -> None:
         super().__init__(cid, Sched())
+        self.reader = GuardReader(limit=2 ** 16)
         self.log = log
         self.pos = 0
         self.user: str | None = None      # model: who is authenticated
@@ -839,6 +863,32 @@ class Run:
             await c.settle()
         c.gone = True
 
+    async def hangup(self, c: SieveConn, where: str) -> None:
+        """The client goes away (EOF): the server task must end."""
+        c.feed_eof()
+        for _ in range(3):
+            if c.task_done:
+                break
+            await c.settle()
+        c.gone = True
+        self.count('client_hangups')
+        if isinstance(c.task_exc, BusyLoop):
+            self.report('c06-busy-loop-reading-at-eof',
+                        'connection %d: client closed %s; the server task '
+                        'kept calling readline() on the exhausted stream '
+                        'without ever yielding (%s) -- sent so far %r' % (
+                            c.cid, where, c.task_exc, bytes(c.sent[-120:])))
+        elif c.task_exc is not None and not isinstance(
+                c.task_exc, asyncio.CancelledError):
+            self.report('c06-server-task-raised-%s-at-eof' %
+                        type(c.task_exc).__name__,
+                        'connection %d: client closed %s: %r' % (
+                            c.cid, where, c.task_exc))
+        elif not c.task_done:
+            self.report('c06-server-task-alive-after-eof',
+                        'connection %d: client closed %s; the server task '
+                        'neither ended nor closed' % (c.cid, where))
+
     # -- one exchange ---------------------------------------------------------
 
     async def exchange(self, c: SieveConn, kind: str, wire: bytes,
@@ -888,9 +938,7 @@ class Run:
             # the command was never executed (the server is still reading
             # it): drop the connection and go on with a fresh one
             self.count('hangs_survived')
-            c.feed_eof()
-            await c.settle()
-            c.gone = True
+            await self.hangup(c, 'after the unanswered %s' % kind)
             raise Skip()
         except Closed:
             exc = c.task_exc
@@ -1527,9 +1575,21 @@ class Run:
             await self.step(c, self.pick_kind(c))
         await self.audit('end of program')
         for c in self.conns:
-            if not c.dead:
-                c.feed_eof()
-                await c.settle()
+            if not c.dead and not c.gone:
+                where = 'between commands'
+                if rng.random() < 0.3:
+                    # go away in the middle of a (valid) command
+                    part = rng.choice([
+                        b'PUTSCRIPT "x" {0+}\r\n', b'PUTSCRIPT "x" {7+}\r\nke',
+                        b'GETSCRIPT "x', b'CHECKSCRIPT {0+}\r\n',
+                        b'PUTSCRIPT {1+}\r\nx {0+}\r\n', b'NOOP',
+                        b'AUTHENTICATE "PLAIN" {0+}\r\n'])
+                    self.program.append('c%d[%s] partial command %r then EOF'
+                                        % (c.cid, c.user or '-', part))
+                    c.feed(part)
+                    await c.settle()
+                    where = 'after the partial command %r' % part
+                await self.hangup(c, where)
 
     # -- scripted triggers ------------------------------------------------------
 
@@ -1629,7 +1689,18 @@ class Run:
         await self.audit('script')
 
 
+    async def script_eof_zero_literal(self) -> None:
+        """Client disconnects right after a line ending in ``{0+}``."""
+        await self.setup()
+        c = await self.fresh(0)
+        self.program.append('c1[-] PUTSCRIPT "x" {0+} CRLF then EOF')
+        c.feed(b'PUTSCRIPT "x" {0+}\r\n')
+        await c.settle()
+        await self.hangup(c, 'after PUTSCRIPT "x" {0+} CRLF')
+
+
 SCRIPTS = {'put-invalid': Run.script_put_invalid,
+           'eof-after-zero-literal': Run.script_eof_zero_literal,
            'literal-tail-name': Run.script_literal_tail,
            'literal-tail-script': Run.script_literal_tail_script,
            'gate': Run.script_gate}
